@@ -5,6 +5,14 @@ Each sub-agent gets only /tmp/mutN/<id>/PROMPT.md (property text + its own workt
 import json, os, subprocess, sys
 root = sys.argv[1]
 n = int(sys.argv[2]) if len(sys.argv) > 2 else 2
+style = sys.argv[3] if len(sys.argv) > 3 else "any"
+EXTRA = {"any": "", "logic": """5. This time do NOT use caching, memoisation, object sharing or any other stale-state mechanism (those have been
+   studied already). Make **logic changes**: a wrong comparison or boundary (< vs <=, off by one), a wrong sign, operand
+   order, default value, unit or conversion, a swapped pair of cases in a dispatch, a condition that is subtly weaker or
+   stronger, an early return that skips a step, a changed evaluation order of two steps - placed in a **rarely
+   exercised feature, code path or operand class** that still lies inside the property's "quantified over" domain, so
+   that mainstream inputs behave identically. Prefer paths that need a specific *combination* of options or values."""}
+extra = EXTRA[style]
 props = [json.loads(l) for l in open('/verif/properties.jsonl')]
 for p in props:
     pid = p['id']
@@ -63,6 +71,7 @@ from the unmodified worktree), each of which
    sites** that each look fine alone; or a change in a **less obvious file/function** than the first place one
    would look (a helper, a base class, a dataclass default, an `__eq__`/`__hash__`, a property setter).
    Avoid changes that make most programs fail. The {n} changes must differ in mechanism and location.
+{extra}
 
 For each change k = {ks} write into `{d}/out/<k>/`:
 
